@@ -16,6 +16,60 @@ def h(b):
     return hashlib.sha1(b if isinstance(b, bytes) else b.encode("utf-8", "surrogateescape")).hexdigest()[:20]
 
 
+def constexpr_inputs(ctx):
+    """OpCases.tla's single-operation cases rendered as CONSTANT expressions: they drive the compiler's own constant folder
+    (eval.c: one host-level operation per operator x signedness x width), i.e. code whose miscompilation in stage 2 shows only on
+    such inputs."""
+    import minic
+    progs = ctx.path("opc.ndjson")
+    with open(progs, "w") as f:
+        f.write('{"charsigned":true,"structs":[],"globals":[],"funcs":[]}\n{"charsigned":false,"structs":[],"globals":[],"funcs":[]}\n')
+    if ctx.quick:
+        r = ctx.tlc("OpCases", "MC_OpCases_quick.cfg", workers=16, env={"C_PROGS": progs, "OPCASES_PART": (ctx.seed + 5) % 16}, timeout=900)
+    else:
+        r = ctx.tlc("OpCases", "MC_OpCases_thorough.cfg", workers=16, env={"C_PROGS": progs, "OPCASES_PART": 0}, timeout=3000, heap="6g")
+    if not r.ok:
+        raise vlib.MachineryError("OpCases.tla failed:\n" + r.out[-2000:])
+    cases = [json.loads(v) for v in sorted(set(r.vcases))]
+    out = []
+    for cs in (True, False):
+        sel = [c for c in cases if c["cs"] == cs and c["k"] in ("bin", "un", "cast")]
+        for i in range(0, len(sel), 80):
+            lines = []
+            for j, c in enumerate(sel[i:i + 80]):
+                a = minic.rlit({"t": minic.T(c["lt"]), "v": c["a"]})
+                if c["k"] == "bin":
+                    e = "%s %s %s" % (a, c["op"], minic.rlit({"t": minic.T(c["rt"]), "v": c["b"]}))
+                elif c["k"] == "un":
+                    e = "%s%s" % (c["op"], a)
+                else:
+                    e = "(%s)%s" % (minic.CNAME[c["rt"]], a)
+                lines.append("long long r%d = %s;\nint k%d = sizeof(%s);\n" % (j, e, j, e))
+            out.append(("".join(lines), "x86_64-sysv" if cs else "aarch64"))
+    # plus the full operator x type x type product on a few fixed operand pairs (no expected value needed for C02: both
+    # stages must simply agree), so that every case of the folder is reached on every run
+    lines = []
+    W = minic.SIZE
+    for op in ["+", "-", "*", "/", "%", "&", "|", "^", "<<", ">>", "<", "<=", ">", ">=", "==", "!=", "&&", "||"]:
+        for lt in minic.INTS:
+            for rt in minic.INTS:
+                for (av, bv) in ((-8, 1), ("min", 3), ("max", 2), (-1, 1)):
+                    def val(t, v):
+                        signed = t in ("char", "schar", "short", "int", "long", "llong")
+                        bits = 8 * W[t]
+                        if v == "min":
+                            v = -(1 << (bits - 1)) if signed else 0
+                        if v == "max":
+                            v = (1 << (bits - 1)) - 1 if signed else (1 << bits) - 1
+                        if t == "bool":
+                            v = 1 if v else 0
+                        return minic.rlit({"t": minic.T(t), "v": minic.w8(v)})
+                    lines.append("long long x%d = %s %s %s;\n" % (len(lines), val(lt, av), op, val(rt, bv)))
+    for i in range(0, len(lines), 400):
+        out.append(("".join(lines[i:i + 400]), ["x86_64-sysv", "aarch64", "riscv64"][(i // 400) % 3]))
+    return out
+
+
 def run(ctx):
     ctx.level = "translation_validation"
     s1 = vlib._build_stage1("plain")
@@ -41,6 +95,8 @@ def run(ctx):
             inputs.append(("corpus:%s" % os.path.basename(p), p, None, targ, "E"))
     for pid, p, t, mode in vlib.pool_items():
         inputs.append(("pool:%s:%s" % (pid, os.path.basename(p)[:12]), p, None, t, mode))
+    for src, t in constexpr_inputs(ctx):
+        inputs.append(("constexpr:%s" % h(src)[:8], None, src, t, "c"))
     nmut = 800 if ctx.quick else 8000
     for src, t, mode, d in mutate.generate(ctx, nmut, max_edits=2 if ctx.quick else 3):
         inputs.append(("mutant:%s:%s" % (d["file"], h(src)[:8]), None, src, t, mode))
